@@ -39,14 +39,11 @@ Qed.
 Lemma C05_full_proof :
   forall nodes root t init lit r,
     tree_of nodes root = Some t ->
-    ~ Known_C05_K1 init t -> ~ Known_C05_K2 t ->
+    ~ Known_C05_K2 t ->
     compile init lit t = Ok r ->
     wf_code nodes init (code_of_compile r).
 Proof.
-  intros nodes root t init lit r Ht Hk1 Hk2 Hc.
-  apply (compile_wf init lit nodes t r (tree_of_in nodes root t Ht)); [| | exact Hc].
-  - split.
-    + destruct (drops_arms t) eqn:E; [exfalso; apply Hk2; exact E | reflexivity].
-    + destruct (has_empty_body t) eqn:E; [exfalso; apply Hk1; left; exact E | reflexivity].
-  - destruct (empty_after_end init t) eqn:E; [exfalso; apply Hk1; right; exact E | reflexivity].
+  intros nodes root t init lit r Ht Hk2 Hc.
+  apply (compile_wf init lit nodes t r (tree_of_in nodes root t Ht)); [| exact Hc].
+  unfold tree_good. destruct (drops_arms t) eqn:E; [exfalso; apply Hk2; exact E | reflexivity].
 Qed.
